@@ -70,6 +70,7 @@ type Exec struct {
 	initRun  map[*ssa.Package]bool
 	lenBounds map[int]int64
 	exactFromHex bool
+	syncMaps map[*Cell]*MapV
 	namePrefix string
 	prefixStack []string
 	choiceMemo map[string]int
@@ -944,6 +945,11 @@ func (e *Exec) keyEq(a, b Value) *Term {
 			cs = append(cs, e.keyEq(x.f[i].v, y.f[i].v))
 		}
 		return e.tb.And(cs...)
+	case *ByteArrV, *ArrayV:
+		if !sameShape(a, b) {
+			return e.tb.ff
+		}
+		return e.valEq(a, b)
 	}
 	e.fail("keyEq on %T", a)
 	return nil
